@@ -237,6 +237,7 @@ class ModelWorld(engine.World):
     self.never_projected = set()
     self.restored_once = False
     self.compiled = False
+    self.finalize_noise = 0.0
     self.deferred = bool(getattr(self.builder, "deferred_strictness",
                                  lambda sp: False)(spec))
     self.dirty_since_finalize = True
@@ -291,11 +292,13 @@ class ModelWorld(engine.World):
     if ref is not None:
       # Restored weights are as (un)finalized as they were when recorded.
       self.dirty_since_finalize = bool(ref.get("dirty_since_finalize", True))
+      self.finalize_noise = float(ref.get("finalize_noise", 0.0))
 
   def _ref_state(self):
     return {
         "kfl": [kr.state() for kr in self.kfl_ref],
         "dirty_since_finalize": bool(self.dirty_since_finalize),
+        "finalize_noise": float(self.finalize_noise),
         "never_projected": sorted(self.never_projected),
     }
 
@@ -618,6 +621,8 @@ class ModelWorld(engine.World):
       opt.apply_gradients(gv)
     ctx.steps += 1
     self.dirty_since_finalize = True
+    if len(idx) == len(self.tvars):
+      self.finalize_noise = 0.0  # every variable rewritten via assign()
     ctx.token("step:%s:%s:%s:%d/%d:%s" % (ev["family"][0], ev["opt"],
                                           ev["order"][0], len(idx),
                                           len(self.tvars), ev["grad"]))
@@ -683,6 +688,10 @@ class ModelWorld(engine.World):
       fin = getattr(layer, "finalize_constraints", None)
       if fin is None:
         continue
+      # finalize writes `var += projected - var`: absolute rounding error of
+      # about one ulp of the old value stays in the variable.
+      before = common.max_abs(common.np_weights(layer.weights))
+      self.finalize_noise = max(self.finalize_noise, before * 2.0**-22)
       is_kfl = isinstance(layer, self.tfl.layers.KroneckerFactoredLattice)
       pre = layer.scale.numpy() if is_kfl else None
       with ctx.sut("finalize_constraints"):
@@ -989,6 +998,7 @@ class ModelWorld(engine.World):
     self.never_projected = set(img["ref"].get("never_projected", []))
     self.dirty_since_finalize = bool(img["ref"].get("dirty_since_finalize",
                                                     True))
+    self.finalize_noise = float(img["ref"].get("finalize_noise", 0.0))
     self._pending_compare = (img, None)
     ctx.fire("reload_weights")
     ctx.token("reload:" + img["fmt"])
@@ -1102,7 +1112,8 @@ class ModelWorld(engine.World):
       return [engine.Violation("nonfinite_output", {
           "after": ev["kind"], "x": [c[r, 0] for c in inputs]},
                                conditions=conds_common)]
-    tol = 1e-5 * (1.0 + S + float(np.max(np.abs(y))))
+    tol = (1e-5 * (1.0 + S + float(np.max(np.abs(y)))) +
+           self.finalize_noise * (1.0 + S))
     out = []
     # Output bounds for every input, missing values included.
     if self.out_min is not None or self.out_max is not None:
